@@ -491,7 +491,11 @@ def check_case(case):
             vals = [K.o_val(s, p, case["curve"][2], case["curve"][1]) for s in specs]
             # "twin": every operand but the first lies on an equal-but-distinct CurveFp object
             c2 = K.twin_curve(c, case["twin"]) if case.get("twin") else c
-            mk = lambda i: specs[i].make(c if i == 0 else c2)  # noqa  (a FRESH object every time: scale() mutates)
+            subs = case.get("sub", ())                 # operands that are instances of trivial user subclasses
+
+            def mk(i):                                 # a FRESH object every time: scale() mutates
+                o = specs[i].make(c if i == 0 else c2)
+                return K.as_subclass(o) if i in subs else o
             pts = list(vals)
             if kind == "add":
                 want = K.o_add(vals[0], vals[1], p, a)
@@ -510,6 +514,78 @@ def check_case(case):
                 if got != want or (got[0] is True and got[1] is True and got[2] is not True):
                     fails.append({"step": "[A==B, B==C, A==C, C==A, B==A, C==B] (transitive, symmetric)", "observed": [repr(g) for g in got],
                                   "expected": [repr(w) for w in want]})
+            elif kind == "alias":
+                # augmented assignments and summation loops: results correct AND every operand object still denotes its
+                # original value afterwards (no operation may overwrite an operand; scale() in place keeps the value)
+                objs = [mk(i) for i in range(len(specs))]
+
+                def intact(step):
+                    for i, (o, v) in enumerate(zip(objs, vals)):
+                        g = K.value(o)
+                        if g != v:
+                            fails.append({"step": step + ": operand %d was modified" % i, "observed": lst(g) if g else "INFINITY",
+                                          "expected": lst(v) if v else "INFINITY", "pts": []})
+                total = None
+                acc = E.INFINITY
+                for o, v in zip(objs, vals):
+                    acc += o
+                    total = K.o_add(total, v, p, a)
+                    pts.append(total)
+                cmp_result("acc = INFINITY; for P in pts: acc += P", acc, c, total, fails)
+                intact("summation loop from INFINITY")
+                acc = objs[0]
+                tot = vals[0]
+                for o, v in zip(objs[1:], vals[1:]):
+                    acc += o
+                    tot = K.o_add(tot, v, p, a)
+                cmp_result("acc = pts[0]; for P in pts[1:]: acc += P", acc, c, tot, fails)
+                intact("summation loop from pts[0]")
+                if len(objs) >= 2:
+                    T = objs[0] + E.INFINITY
+                    T += objs[1]
+                    cmp_result("T = P + INFINITY; T += Q", T, c, K.o_add(vals[0], vals[1], p, a), fails)
+                    intact("T = P + INFINITY; T += Q")
+                    T = E.INFINITY + objs[0]
+                    T += objs[1]
+                    intact("T = INFINITY + P; T += Q")
+                    if isinstance(objs[0], E.PointJacobi):
+                        T = 1 * objs[0]
+                        T += objs[1]
+                        cmp_result("T = 1 * P; T += Q", T, c, K.o_add(vals[0], vals[1], p, a), fails)
+                        intact("T = 1 * P; T += Q")
+                        T = objs[0]
+                        T *= 3
+                        cmp_result("T = P; T *= 3", T, c, K.o_mul(3, vals[0], p, a), fails,
+                                   [K.o_mul(2, vals[0], p, a), K.o_mul(4, vals[0], p, a)])   # NAF of 3 is 4 - 1: 2P, 4P are intermediates
+                        intact("T = P; T *= 3")
+                    if hasattr(type(objs[0]), "__sub__"):
+                        T = objs[0]
+                        T -= objs[1]
+                        cmp_result("T = P; T -= Q", T, c, K.o_add(vals[0], K.o_neg(vals[1], p), p, a), fails)
+                        intact("T = P; T -= Q")
+            elif kind == "hash":
+                # points are unhashable on this tree (they define __eq__ only).  Oracle: unhashable, or a hash that is
+                # consistent with == (equal points in any scaling / class hash equal) and stable under in-place scale()
+                o1, o2 = mk(0), mk(1)
+                same = vals[0] == vals[1]
+                try:
+                    h1, h2 = hash(o1), hash(o2)
+                except TypeError:
+                    h1 = h2 = None
+                if h1 is not None:
+                    if same and h1 != h2:
+                        fails.append({"step": "hash(P) vs hash(P') for P == P'", "observed": "different", "expected": "equal (or unhashable)"})
+                    if isinstance(o1, E.PointJacobi):
+                        o1.scale()
+                        if hash(o1) != h1:
+                            fails.append({"step": "hash(P) before/after P.scale()", "observed": "changed", "expected": "stable (or unhashable)"})
+                    st = {mk(0)}
+                    if same and mk(1) not in st:
+                        fails.append({"step": "P' in {P} for P' == P", "observed": "False", "expected": "True (or unhashable)"})
+                    d = {mk(0): 1}
+                    d[mk(1)] = 2
+                    if same and len(d) != 1:
+                        fails.append({"step": "len({P: 1, P': 2}) for P' == P", "observed": str(len(d)), "expected": "1 (or unhashable)"})
             elif kind == "double":
                 want = K.o_add(vals[0], vals[0], p, a)
                 cmp_result("P.double()", mk(0).double(), c, want, fails)
@@ -651,6 +727,12 @@ def search_corpus(S):
     S.case(mkcase(cur, "chain", [tk(J(gx, gy, 1)), tk(J(gx, p - gy, 1))], "NIST256p"), "corpus.F12")
     S.case(mkcase((11, 1, 6), "neg", ["inf"]), "corpus.F12")
     S.case(mkcase((11, 1, 6), "chain", [tk(J(2, 7, 1)), tk(J(2, 4, 1))]), "corpus.F12")
+    g2 = K.o_mul(2, (gx, gy), p, a)
+    S.case(mkcase(cur, "alias", [tk(J(gx, gy, 1)), tk(J(g2[0], g2[1], 1)), tk(A(gx, gy))], "NIST256p"), "corpus.alias")
+    S.case(mkcase(cur, "hash", [tk(J(gx, gy, 1)), tk(J(*K.rescale((gx, gy), 7, p)))], "NIST256p"), "corpus.hash")
+    cs = mkcase(cur, "eq", [tk(J(gx, gy, 1)), tk(J(*K.rescale((gx, gy), 5, p)))], "NIST256p")
+    cs["sub"] = [0]
+    S.case(cs, "corpus.subclass")
     # F13 (fixed): PointJacobi(c,0,0,0) == P was True for every P; identity-valued objects with different X compared unequal
     S.case(mkcase(cur, "eq", [tk(J(0, 0, 0)), tk(J(gx, gy, 1))], "NIST256p"), "corpus.F13")
     S.case(mkcase(cur, "eq", [tk(J(gx, gy, 1)), tk(J(0, 0, 0))], "NIST256p"), "corpus.F13")
@@ -718,6 +800,26 @@ def search_toy_curve(ctx, S, p, a, b):
                 case = mkcase(cur, chk, args)
                 case["twin"] = mode
                 S.case(case, pre + "twin.%s.%s" % (chk, mode))
+    # operands that are instances of trivial user subclasses of PointJacobi / Point (==, !=, +, chains), aliasing of
+    # operands under augmented assignment / summation loops, hashability
+    for P in pts:
+        for Q in rng.sample(pts, min(len(pts), 3)) + [P, K.o_neg(P, p)]:
+            s1, s2 = tk(J(*K.rescale(P, rng.choice(zs), p))), tk(J(*K.rescale(Q, rng.choice(zs), p)))
+            for sub in ([0], [1], [0, 1]):
+                for chk, args in (("eq", [s1, s2]), ("eq", [s1, tk(A(*Q))]), ("eq", [tk(A(*P)), tk(A(*Q))]), ("add", [s1, s2]),
+                                  ("add", [tk(A(*P)), s2]), ("chain", [s1, s2])):
+                    case = mkcase(cur, chk, args)
+                    case["sub"] = sub
+                    S.case(case, pre + "subclass.%s.%s" % (chk, "".join(map(str, sub))))
+            S.case(mkcase(cur, "hash", [s1, s2]), pre + "hash.jacobi")
+            S.case(mkcase(cur, "hash", [tk(A(*P)), tk(A(*Q))]), pre + "hash.affine")
+            S.case(mkcase(cur, "hash", [s1, tk(A(*Q))]), pre + "hash.mixed")
+        S.case(mkcase(cur, "hash", ["inf", "inf"]), pre + "hash.inf")
+        ops = [tk(J(*K.rescale(P, rng.choice(zs), p)))] + [rng.choice([tk(J(*K.rescale(Q, rng.choice(zs), p))), tk(A(*Q)), tk(J(Q[0], Q[1], 1))])
+                                                            for Q in rng.sample(pts, min(len(pts), 3))]
+        S.case(mkcase(cur, "alias", ops), pre + "alias.jacobi")
+        S.case(mkcase(cur, "alias", [tk(A(*P))] + ops[1:]), pre + "alias.affine.first")
+        S.case(mkcase(cur, "alias", [ops[0], tk(J(*K.rescale(K.o_neg(P, p), rng.choice(zs), p))), ops[-1]]), pre + "alias.cancel")
     # `==` between non-canonical writings (x+p, y-p, -y for p-y, ...) with EQUAL Z on both sides: only `==` is claimed
     # for such user-constructed objects (their x(), y() with Z = 1 are returned as stored)
     for P in pts:
